@@ -37,11 +37,11 @@ def run_gcc(wd, name, src, defs=()):
     return M.tokenize(g.stdout)
 
 
-def run_impl(b, wd, name, src, defs=()):
+def run_impl(b, wd, name, src, defs=(), timeout=20):
     p = os.path.join(wd, name)
     open(p, 'w').write(src)
     try:
-        i = subprocess.run([b['parse_file'], '-E'] + ['-D' + d for d in defs] + [p], stdout=subprocess.PIPE, stderr=subprocess.PIPE, text=True, timeout=30)
+        i = subprocess.run([b['parse_file'], '-E'] + ['-D' + d for d in defs] + [p], stdout=subprocess.PIPE, stderr=subprocess.PIPE, text=True, timeout=timeout)
     except subprocess.TimeoutExpired:
         return 'TIMEOUT'
     if i.returncode != 0:
@@ -176,7 +176,7 @@ def main():
         if g is None:
             continue
         ck.count()
-        if run_impl(b, wd, 'x.h', src) != g:
+        if run_impl(b, wd, 'x.h', src, timeout=4) != g:
             diff += 1
     ck.cov['streams'] = {'object_like': n_obj, 'full_grammar_programs': n_full, 'full_grammar_divergent': diff, 'witnesses': len(WITNESSES)}
     ck.cov['rule'] = ('programs of up to 5 macros with interleaved #define / text (+ #undef, redefinition, push_macro/pop_macro, -D, invocations split over lines): '
